@@ -1,1 +1,2 @@
 //! harness bins for the client / Cardano database family (C03 client path, C10, C12, C19)
+pub mod dbkit;
